@@ -141,9 +141,33 @@ func (c *c04Case) indexerGone() (string, bool) {
 	return fmt.Sprintf("the store has %d indexes but only %d indexing goroutine(s) (%v)", len(c.defs), len(all), all), true
 }
 
+// D1, third witness (restartCensus): reported as soon as a restart met a busy indexing goroutine
+func (c *c04Case) busyRestartWitness(when string) bool {
+	if c.raceSig != "" || c.hook == nil {
+		return false
+	}
+	w := c.hook.takeBusy()
+	if w == "" {
+		return false
+	}
+	c.r.OracleChecks++
+	desc := fmt.Sprintf("%s: %s — stop() does not wait for it: the bulk it is preparing against the closed tree is inserted into the reopened dump (idx.index is read when the call is made) and, once resume() has started the new goroutine, two goroutines run indexSince on the shared idx.tx/idx._kvs (a tx indexed with the entries of another: part of its keys missing, ReadTxEntry(prevTx, key of another tx) = 'key not found'); whether the old goroutine stays (two doIndexing goroutines), returns on the cancelled ctx or is removed later by ErrAlreadyClosed only decides what is left to be seen", when, w)
+	c.op("WITNESS %s", desc)
+	c.r.Count("compact.witness.restart-met-busy-indexer." + c.cfg.Mode)
+	c.r.Fail(c04SigRestartRace, desc, c.replay(desc))
+	c.lines = nil
+	c.dropped = true
+	c.raceSig = c04SigRestartRace
+	c.raceWhy = "restartIndex ran while the indexing goroutine of that indexer was still at work (" + w + ")"
+	return true
+}
+
 // D1 witness: an indexer served by two doIndexing goroutines, persistently
 func (c *c04Case) checkRestartRace(when string) {
 	if c.raceSig != "" {
+		return
+	}
+	if c.busyRestartWitness(when) {
 		return
 	}
 	// 5 samples over 120 ms (the goroutine started by resume() may not have run yet at the first one); a witness is a
@@ -194,6 +218,7 @@ type c04DumpHook struct {
 	release chan struct{}
 	delay   time.Duration
 	nHits   int32
+	busy    []string // restarts during which the indexer's own goroutine was still at work (restartCensus)
 }
 
 func newC04DumpHook() *c04DumpHook {
@@ -276,12 +301,89 @@ func (a *c04HookApp) ReadAt(bs []byte, off int64) (int, error) {
 	return a.Appendable.ReadAt(bs, off)
 }
 
+var c04RestartIndexRe = regexp.MustCompile(`store\.\(\*indexer\)\.restartIndex\((0x[0-9a-f]+)`)
+
+// D1, third witness — the CAUSE itself, observed synchronously from inside restartIndex (the appendable factory is called
+// by tbtree.Open between `idx.index.Close()` and `idx.index = index`): the doIndexing goroutine of the indexer that is
+// being restarted (same receiver as the restartIndex frame of the calling goroutine) is not parked in doIndexing's own
+// commitWHub.WaitFor but still inside indexSince / handleWriteStalling / an error back-off, long after stop().  It
+// cannot enter indexSince anew once stop() has run (cancelled ctx, state=stopped), so it has been there since before,
+// and the bulk it is preparing against the closed tree goes to `idx.index` = the reopened dump; from resume() on it runs
+// concurrently with the new goroutine on the shared idx.tx / idx._kvs.
+func (h *c04DumpHook) restartCensus(idxPath string) {
+	buf := make([]byte, 1<<20)
+	for {
+		n := runtime.Stack(buf, true)
+		if n < len(buf) {
+			buf = buf[:n]
+			break
+		}
+		buf = make([]byte, 2*len(buf))
+	}
+	gs := strings.Split(string(buf), "\n\n")
+	recv := ""
+	for _, g := range gs {
+		if strings.Contains(g, "c04DumpHook).restartCensus") {
+			if m := c04RestartIndexRe.FindStringSubmatch(g); m != nil {
+				recv = m[1]
+			}
+			break
+		}
+	}
+	if recv == "" {
+		return
+	}
+	for _, g := range gs {
+		if !strings.Contains(g, "store.(*indexer).doIndexing("+recv) {
+			continue
+		}
+		where := ""
+		switch {
+		case strings.Contains(g, "store.(*indexer).indexSince("):
+			where = "inside indexSince"
+			if m := regexp.MustCompile(`indexSince\(0x[0-9a-f]+, (0x[0-9a-f]+)`).FindStringSubmatch(g); m != nil {
+				if v, err := strconv.ParseUint(m[1], 0, 64); err == nil {
+					where = fmt.Sprintf("inside indexSince(%d)", v)
+				}
+			}
+		case strings.Contains(g, "store.(*indexer).handleWriteStalling("):
+			where = "inside handleWriteStalling"
+		case strings.Contains(g, "time.Sleep("):
+			where = "in its error back-off"
+		}
+		if where != "" {
+			h.mu.Lock()
+			h.busy = append(h.busy, fmt.Sprintf("restartIndex of %s had closed the live tree and was reopening the dump while the indexing goroutine of that indexer was still %s", filepath.Base(idxPath), where))
+			h.mu.Unlock()
+		}
+	}
+}
+
+func (h *c04DumpHook) takeBusy() string {
+	h.mu.Lock()
+	defer h.mu.Unlock()
+	if len(h.busy) == 0 {
+		return ""
+	}
+	w := h.busy[0]
+	if len(h.busy) > 1 {
+		w += fmt.Sprintf(" (and %d more such restarts)", len(h.busy)-1)
+	}
+	h.busy = nil
+	return w
+}
+
 func (h *c04DumpHook) factory() store.AppFactoryFunc {
 	return func(rootPath, subPath string, opts *multiapp.Options) (appendable.Appendable, error) {
 		// restartIndex: the live tree has been closed, tbtree.Open is about to reload the dump (idx.index still points
 		// to the closed tree)
 		if subPath == "history" && atomic.LoadInt32(&h.on) == 1 && atomic.LoadInt32(&h.atReopen) != 0 && c04InStack("store.(*indexer).restartIndex") {
 			h.at(rootPath+"#reopen", "reopen")
+		}
+		// restartIndex, last appendable of tbtree.Open (the commit log of the dump): the live tree was closed a while ago,
+		// `idx.index = index` and resume() are next.  Is the indexing goroutine of THIS indexer still at work?
+		if strings.HasPrefix(subPath, "commit") && strings.HasPrefix(filepath.Base(rootPath), "index") && c04InStack("store.(*indexer).restartIndex") {
+			h.restartCensus(rootPath)
 		}
 		app, err := multiapp.Open(filepath.Join(rootPath, subPath), opts)
 		if err != nil {
